@@ -129,6 +129,10 @@ where
         // neighbouring cells to search in each direction is found from the distance between
         // opposite edges of the cell.
         let cell_height = f64::min(self.cell.a(), self.cell.b()) * self.cell.angle().sin();
+        // A cell without any area can't contain a shape, and has no limit to the images to search
+        if !(cell_height > 0.) {
+            return true;
+        }
         let periodic_range = (2. * self.shape.enclosing_radius() / cell_height).ceil() as i64;
         // Compare within the current cell
         for (index, shape1) in self
